@@ -1,9 +1,15 @@
 package c11
 
 import (
+	"crypto/sha256"
 	"fmt"
 	"sort"
 	"sync"
+
+	"github.com/bronlabs/bron-crypto/pkg/base/curves/k256"
+	"github.com/bronlabs/bron-crypto/pkg/mpc/signatures/ecdsa/lindell17"
+	"github.com/bronlabs/bron-crypto/pkg/proofs/sigma/compiler/fischlin"
+	"github.com/bronlabs/bron-crypto/pkg/signatures/ecdsa"
 
 	"verifmc/engine"
 	"verifmc/proto"
@@ -99,4 +105,63 @@ func p1Case(c *proto.Case) func(*engine.X) {
 		}
 		x.Observe(e.Info.Switches)
 	}
+}
+
+// ---- Lindell17 two-party ECDSA signing over its runners (4 exchanges, strict ping-pong) ---------------------------
+
+var (
+	l17Once   sync.Once
+	l17Shards map[proto.ID]*lindell17.Shard[*k256.Point, *k256.BaseFieldElement, *k256.Scalar]
+	l17Suite  *ecdsa.Suite[*k256.Point, *k256.BaseFieldElement, *k256.Scalar]
+	l17RefSig string
+)
+
+func l17Setup() {
+	l17Once.Do(func() {
+		ids := []proto.ID{1, 2, 3}
+		sh, err := proto.C01Lindell17Deal(k256.NewCurve(), proto.Threshold(2, ids...), 1024, 1, "c11")
+		if err != nil {
+			panic(engine.HarnessError{Msg: "lindell17 dealer: " + err.Error()})
+		}
+		l17Shards = sh
+		s, err := ecdsa.NewSuite(k256.NewCurve(), sha256.New)
+		if err != nil {
+			panic(engine.HarnessError{Msg: "ecdsa suite: " + err.Error()})
+		}
+		l17Suite = s
+		out := proto.C01Lindell17Run(zeroChooser{}, schednet.New(1, 2), l17Suite, l17Shards, 1, 2, fischlin.Name, []byte("m"), engine.Seed(), "c11")
+		sig, ok := out.Sigs["party/1"]
+		if !ok || len(out.Errs) != 0 {
+			panic(engine.HarnessError{Msg: fmt.Sprintf("lindell17 reference run failed: %v", out.Errs)})
+		}
+		l17RefSig = fmt.Sprintf("%x/%x", sig.R().Bytes(), sig.S().Bytes())
+	})
+}
+
+// p1Lindell17: key material is dealt once per worker process (Paillier key generation is not a function of the seed),
+// so the reference run and the disturbed runs of one process share it.
+func p1Lindell17(x *engine.X) {
+	l17Setup()
+	net := schednet.New(1, 2)
+	net.FIFO = true
+	net.DupDev = true
+	out := proto.C01Lindell17Run(x, net, l17Suite, l17Shards, 1, 2, fischlin.Name, []byte("m"), engine.Seed(), "c11")
+	if out.Info != nil && out.Info.HarnessErr != "" {
+		panic(engine.HarnessError{Msg: out.Info.HarnessErr})
+	}
+	if out.Info != nil && out.Info.Deadlock != "" {
+		x.Failf("runner/deadlock/lindell17", "lindell17: DEADLOCK under a benign delivery order / identical retransmission: %s", out.Info.Deadlock)
+		return
+	}
+	for who, err := range out.Errs {
+		x.Failf("runner/outcome-differs/lindell17", "lindell17: %s failed under a benign delivery order / identical retransmission: %v; the undisturbed run succeeds", who, firstLine(err.Error()))
+	}
+	if sig, ok := out.Sigs["party/1"]; ok {
+		if got := fmt.Sprintf("%x/%x", sig.R().Bytes(), sig.S().Bytes()); got != l17RefSig {
+			x.Failf("runner/result-differs/lindell17", "lindell17: signature %s differs from the undisturbed run %s", got, l17RefSig)
+		}
+	} else if len(out.Errs) == 0 {
+		x.Failf("runner/outcome-differs/lindell17", "lindell17: the primary ended without a signature")
+	}
+	x.Observe(len(out.Errs))
 }
